@@ -619,7 +619,13 @@ func (c *compiler) arrayOperator(l interface{}, r interface{}, op string) (inter
 			err = fmt.Errorf("cannot append '%v' (%s) as %s value in assignment", r, t, elemType)
 		}
 		if err == nil {
-			return reflect.Append(reflect.ValueOf(l), reflect.ValueOf(r)).Interface(), nil
+			// the result is a slice of its own: appending in place would write into
+			// spare capacity that the left operand shares with earlier results (and
+			// with other executions, when it comes from a shared context)
+			lv := reflect.ValueOf(l)
+			res := reflect.MakeSlice(lv.Type(), lv.Len(), lv.Len()+1)
+			reflect.Copy(res, lv)
+			return reflect.Append(res, reflect.ValueOf(r)).Interface(), nil
 		}
 	default:
 		err = fmt.Errorf("unkown operator (%s) on %T and %T ", op, l, r)
